@@ -259,3 +259,25 @@ func (br *L1Bridge) UpdateGlobalExitRoot(l1 *L1, b BlockCtx) []L1Event {
 	}
 	return nil
 }
+
+// Clone returns an independent copy (explorers branch on it).
+func (l *L1) Clone() *L1 {
+	n := *l
+	n.GlobalExitRootMap = make(map[Hash]bool, len(l.GlobalExitRootMap))
+	for k, v := range l.GlobalExitRootMap {
+		n.GlobalExitRootMap[k] = v
+	}
+	n.RollupIDToLastExitRoot = make(map[uint32]Hash, len(l.RollupIDToLastExitRoot))
+	for k, v := range l.RollupIDToLastExitRoot {
+		n.RollupIDToLastExitRoot[k] = v
+	}
+	n.Leaves = append([]InfoLeaf{}, l.Leaves...)
+	return &n
+}
+
+// Clone returns an independent copy.
+func (br *L1Bridge) Clone() *L1Bridge {
+	n := *br
+	n.Leaves = append([]Hash{}, br.Leaves...)
+	return &n
+}
